@@ -42,6 +42,7 @@ type Report struct {
 	CaseIndex  map[string]any `json:"case_index"`
 	Exhaustive bool           `json:"exhaustive"`
 	Notes      []string       `json:"notes"`
+	SigCounts  map[string]int `json:"signature_counts"`
 	distinct   map[string]bool
 	outDir     string
 }
@@ -71,8 +72,13 @@ func (r *Report) Sample(v any) {
 	}
 }
 
+// Violate records a failing input; at most three are kept per signature, all are counted.
 func (r *Report) Violate(sig, what string, replay any) {
-	if len(r.Violations) < 200 {
+	if r.SigCounts == nil {
+		r.SigCounts = map[string]int{}
+	}
+	r.SigCounts[sig]++
+	if r.SigCounts[sig] <= 3 && len(r.Violations) < 400 {
 		r.Violations = append(r.Violations, Violation{sig, what, replay})
 	}
 }
